@@ -396,7 +396,147 @@ func (u *U) Lt(a, b *E) *E {
 			return u.Eq(a, u.Int(0))
 		}
 	}
+	if r := u.ltNorm(a, b); r != nil {
+		return r
+	}
 	return u.Bool(u.Atom(u.mk("lt", "", types.Typ[types.Bool], a, b)))
+}
+
+// ltNorm gives comparisons of signed integer sums one normal form: with
+// D = a - b = P - N + k (P, N sums of distinct terms, k a constant),
+//   a < b  <=>  P + k < N            for k >= 0
+//   a < b  <=>  !(N + (-k-1) < P)    for k <  0
+// so that i <= n-5, i+5 <= n, !(n < i+5) and n-i-5 >= 0 are one atom, and
+// len(h)-len(s)-1 < 0 is !(len(s) < len(h)).  Single-term comparisons keep the
+// constant on the other side (x < c, c < x).  (Lengths and indexes: no
+// overflow.)
+func (u *U) ltNorm(a, b *E) *E {
+	signed := func(e *E) (types.Type, bool) {
+		if e.Op == "len" || e.Op == "cap" {
+			return types.Typ[types.Int], true
+		}
+		if e.Typ == nil {
+			return nil, false
+		}
+		bt, ok := e.Typ.Underlying().(*types.Basic)
+		if !ok || bt.Info()&types.IsInteger == 0 || bt.Info()&types.IsUnsigned != 0 {
+			return nil, false
+		}
+		switch bt.Kind() {
+		case types.Int, types.Int64, types.Int32, types.UntypedInt:
+			return e.Typ, true
+		}
+		return nil, false
+	}
+	ta, oka := signed(a)
+	tb, okb := signed(b)
+	if !oka || !okb {
+		return nil
+	}
+	typ := ta
+	if a.IsConst() {
+		typ = tb
+	}
+	if bt, ok := typ.Underlying().(*types.Basic); ok && bt.Kind() == types.UntypedInt {
+		typ = types.Typ[types.Int]
+	}
+	coef := map[*E]int64{}
+	var order []*E
+	var k int64
+	ok := true
+	var flat func(e *E, sign int64)
+	flat = func(e *E, sign int64) {
+		if v, isC := e.IntVal(); isC && e.IsConst() {
+			k += sign * v
+			return
+		}
+		if e.Op == "bin" && (e.Aux == "+" || e.Aux == "-") && e.Typ != nil && isIntLikeT(e.Typ) && !isStringT(e.Typ) {
+			if bt, isB := e.Typ.Underlying().(*types.Basic); isB && bt.Info()&types.IsUnsigned != 0 {
+				ok = false
+				return
+			}
+			flat(e.Args[0], sign)
+			if e.Aux == "+" {
+				flat(e.Args[1], sign)
+			} else {
+				flat(e.Args[1], -sign)
+			}
+			return
+		}
+		if e.Op == "ite" {
+			ok = false
+			return
+		}
+		if _, seen := coef[e]; !seen {
+			order = append(order, e)
+		}
+		coef[e] += sign
+	}
+	flat(a, 1)
+	flat(b, -1)
+	if !ok {
+		return nil
+	}
+	var P, N []*E
+	sort.Slice(order, func(i, j int) bool { return order[i].key < order[j].key })
+	for _, e := range order {
+		switch coef[e] {
+		case 0:
+		case 1:
+			P = append(P, e)
+		case -1:
+			N = append(N, e)
+		default:
+			return nil
+		}
+	}
+	if len(P)+len(N) == 0 {
+		return u.Bool(boolRef(k < 0))
+	}
+	sum := func(ts []*E, c int64) *E {
+		var acc *E
+		for _, t := range ts {
+			if acc == nil {
+				acc = t
+			} else {
+				acc = u.Bin(token.ADD, acc, t, typ)
+			}
+		}
+		if acc == nil {
+			return u.ConstVal(constant.MakeInt64(c), typ)
+		}
+		if c != 0 {
+			acc = u.Bin(token.ADD, acc, u.ConstVal(constant.MakeInt64(c), typ), typ)
+		}
+		return acc
+	}
+	atom := func(x, y *E) Ref { return u.Atom(u.mk("lt", "", types.Typ[types.Bool], x, y)) }
+	// unchanged shape?  then let the caller build the plain atom
+	switch {
+	case len(P) == 1 && len(N) == 0:
+		// x + k < 0  <=>  x < -k
+		x, c := P[0], u.ConstVal(constant.MakeInt64(-k), typ)
+		if x == a && c == b {
+			return nil
+		}
+		return u.Lt(x, c)
+	case len(P) == 0 && len(N) == 1:
+		// k - x < 0  <=>  k < x
+		x, c := N[0], u.ConstVal(constant.MakeInt64(k), typ)
+		if c == a && x == b {
+			return nil
+		}
+		return u.Lt(c, x)
+	}
+	if k >= 0 {
+		l, r := sum(P, k), sum(N, 0)
+		if l == a && r == b {
+			return nil
+		}
+		return u.Bool(atom(l, r))
+	}
+	l, r := sum(N, -k-1), sum(P, 0)
+	return u.Bool(u.bdd.Not(atom(l, r)))
 }
 
 // Cmp builds a comparison from a Go token.
@@ -857,6 +997,26 @@ func (u *U) LibCall(name string, typ types.Type, args ...*E) *E {
 			if c, ok := args[1].IntVal(); ok && c >= 0 && c < 128 {
 				return u.mk("call", "strings.Index", intT, args[0], u.Str(string(rune(c))))
 			}
+		}
+	case "strings.LastIndexByte":
+		if len(args) == 2 {
+			if c, ok := args[1].IntVal(); ok && c >= 0 && c < 128 {
+				return u.mk("call", "strings.LastIndex", intT, args[0], u.Str(string(rune(c))))
+			}
+		}
+	case "builtin.min", "builtin.max":
+		// min(x, K) is the capping idiom "if K < x { K } else { x }"
+		if len(args) == 2 && isIntLike(args[0]) && isIntLike(args[1]) {
+			a, b := args[0], args[1]
+			if a.IsConst() && !b.IsConst() {
+				a, b = b, a
+			} else if !a.IsConst() && !b.IsConst() && a.key > b.key {
+				a, b = b, a
+			}
+			if name == "builtin.min" {
+				return u.ITE(u.ToBool(u.Lt(b, a)), b, a)
+			}
+			return u.ITE(u.ToBool(u.Lt(a, b)), b, a)
 		}
 	case "strings.HasPrefix", "strings.HasSuffix":
 		// a one-byte pattern is a test of the first / last byte
